@@ -170,7 +170,8 @@ def run(chk, facts):
     # ---------------- R-C07-4 ----------------
     try:
         ufa = syn.one_fn("unify_fun_arg", mod="check::constrain::unify::function")
-        reads = [n for n in walk(ufa["body"]) if n.get("k") == "field" and n["name"] == "mutable"]
+        from .common import local_helpers
+        reads = [n for f_ in [ufa] + local_helpers(syn, ufa) for n in walk(f_["body"]) if n.get("k") == "field" and n["name"] == "mutable"]
         chk.ob("R-C07-4", "unify_fun_arg:reads-mutable", len(reads) >= 1, f"unify_fun_arg reads `.mutable` of the declared argument {len(reads)} time(s)" if reads else
                "unify_fun_arg no longer looks at the declared argument's `mutable`: a `fin self` method can be called on/for mutation", facts.loc_of(ufa))
     except AnchorError as e:
